@@ -5,6 +5,7 @@
   addition or subtraction of the validation overflows.
 -/
 import BloomVerif.Lemmas.Format
+import BloomVerif.Bridge.Scanner
 namespace BloomVerif.C19
 open BloomVerif
 
@@ -106,6 +107,28 @@ example : Gen.validate (layout [⟨10, 3⟩, ⟨0, 0⟩, ⟨7, 5⟩]) 30 = true 
 /-- Non-vacuity: offsets near the int64 extremes are rejected rather than wrapped. -/
 example : Gen.validate { BlockFilterRegionOffset := 5, BlockFilterRegionSize := 9223372036854775807, DataBlocks := [] } 9223372036854775807 = false := by
   decide
+
+/-- **The row scanner as regenerated from `BlockRowScanner.Next`** (every slice and the 4-byte read of the Go
+    text turned into an explicit bounds obligation): from any cursor inside a section of any length, whatever
+    32-bit word stands at the cursor, a step never indexes out of range; a returned row lies inside the
+    section right behind its prefix, and the cursor moves strictly forward to the row's end. -/
+theorem scanner_generated_in_bounds (n pos : Int) (word : Int → Int)
+    (hn : n ≤ 9223372036854775807) (hp : 0 ≤ pos) (hpn : pos ≤ n)
+    (hw : 0 ≤ word pos) (hw' : word pos < 4294967296) :
+    Gen.BlockRowScanner_Next n pos word ≠ .panic ∧
+    ∀ lo hi p', Gen.BlockRowScanner_Next n pos word = .row lo hi p' →
+      lo = pos + 4 ∧ hi = lo + word pos ∧ hi ≤ n ∧ p' = hi ∧ pos < p' :=
+  ⟨Bridge.scanner_step_no_panic n pos word hn hp hpn hw hw',
+   fun lo hi p' h => Bridge.scanner_step_row n pos word lo hi p' hn hp hpn hw hw' h⟩
+
+/-- non-vacuity: a 10-byte section whose prefix announces 6 bytes yields the row [4,10); announcing 7 is an
+    error, not an out-of-range slice; 3 trailing bytes are an error too -/
+example : Gen.BlockRowScanner_Next 10 0 (fun _ => 6) = .row 4 10 10 ∧ Gen.BlockRowScanner_Next 10 0 (fun _ => 7) = .err ∧
+    Gen.BlockRowScanner_Next 10 7 (fun _ => 0) = .err ∧ Gen.BlockRowScanner_Next 10 10 (fun _ => 0) = .done ∧
+    (Gen.BlockRowScanner_Next 10 0 (fun _ => 6) ≠ .panic ∧ ∀ lo hi p', Gen.BlockRowScanner_Next 10 0 (fun _ => 6) = .row lo hi p' →
+      lo = 0 + 4 ∧ hi = lo + 6 ∧ hi ≤ 10 ∧ p' = hi ∧ 0 < p') :=
+  ⟨by decide, by decide, by decide, by decide,
+   scanner_generated_in_bounds 10 0 (fun _ => 6) (by decide) (by decide) (by decide) (by decide) (by decide)⟩
 
 end BloomVerif.C19
 
